@@ -15,9 +15,9 @@ use std::collections::BTreeMap;
 pub const SPEC: PropSpec = PropSpec {
     id: "C15",
     level: "exploration",
-    rule: "Cases = (document = serialization of a generated family value, list of rewrites with sites). Rewrites, applied on R_tok's token stream of the document: comment or PI inserted at a token boundary or inside a text (never inside an entity reference); whitespace inserted between children of element-only content (elements named s_* / k_*); a text replaced by a CDATA section (whole, or split at a point not adjacent to whitespace) or one non-whitespace character replaced by a decimal / hexadecimal character reference; <x/> <-> <x></x>; attribute order permuted, quote kind swapped (re-escaping that quote), spaces added around '=' and between attributes, whitespace added before the '>' / '/>' of any tag; XML declaration, prolog comment, trailing comment/whitespace added; unknown attribute added to struct elements; unknown child element with attributes and nested content added at the start or end of struct elements that have no $value field and are not maps. For documents of at most 12 tokens every rewrite is applied at EVERY applicable site and random pairs are composed; for larger ones 1-6 random rewrites are composed. Oracle: from_str(original) == Ok(value) and from_str(rewritten) == Ok(value). Non-trivial = the rewrite changed the document inside the root element.",
-    assumptions: &["the element naming convention of the family (s_/k_/x_/t_/m_/u_) tells the rewriter which content model an element has", "xs:list texts: the separator space is never replaced by a reference (an escaped space is documented to be part of an item)", "R_tok / R_attr are used as tools to find rewrite sites"],
-    required: &["rewrite.comment_at_boundary", "rewrite.comment_in_text", "rewrite.pi", "rewrite.whitespace", "rewrite.cdata_whole", "rewrite.cdata_split", "rewrite.charref_dec", "rewrite.charref_hex", "rewrite.empty_to_pair", "rewrite.pair_to_empty", "rewrite.attr_permute", "rewrite.attr_quote_swap", "rewrite.attr_spacing", "rewrite.prolog", "rewrite.trailing", "rewrite.unknown_attr", "rewrite.unknown_child_start", "rewrite.unknown_child_end", "rewrite.tag_spacing", "exhaustive_site_docs", "types_seen_all"],
+    rule: "Cases = (document = serialization of a generated family value, list of rewrites with sites). Rewrites, applied on R_tok's token stream of the document: comment or PI inserted at a token boundary or inside a text (never inside an entity reference); whitespace inserted between children of element-only content (elements named s_* / k_*, and o_* elements that have no character data in this document); a text replaced by a CDATA section (whole, or split at a point not adjacent to whitespace) or one non-whitespace character replaced by a decimal / hexadecimal character reference; <x/> <-> <x></x>; attribute order permuted, quote kind swapped (re-escaping that quote), spaces added around '=' and between attributes, whitespace added before the '>' / '/>' of any tag; XML declaration, prolog comment, trailing comment/whitespace added; unknown attribute added to struct elements; unknown child element with attributes and nested content added at the start or end of struct elements that have no $value field and are not maps, also in its pretty-printed form (on lines of its own). For documents of at most 12 tokens every rewrite is applied at EVERY applicable site and random pairs are composed; for larger ones 1-6 random rewrites are composed. Oracle: from_str(original) == Ok(value) and from_str(rewritten) == Ok(value). Non-trivial = the rewrite changed the document inside the root element.",
+    assumptions: &["the element naming convention of the family (s_/k_/x_/t_/m_/u_/o_) tells the rewriter which content model an element has (o_ = named children and an optional $text: element-only content exactly where the document has no character data there)", "xs:list texts: the separator space is never replaced by a reference (an escaped space is documented to be part of an item)", "R_tok / R_attr are used as tools to find rewrite sites"],
+    required: &["rewrite.comment_at_boundary", "rewrite.comment_in_text", "rewrite.pi", "rewrite.whitespace", "rewrite.cdata_whole", "rewrite.cdata_split", "rewrite.charref_dec", "rewrite.charref_hex", "rewrite.empty_to_pair", "rewrite.pair_to_empty", "rewrite.attr_permute", "rewrite.attr_quote_swap", "rewrite.attr_spacing", "rewrite.prolog", "rewrite.trailing", "rewrite.unknown_attr", "rewrite.unknown_child_start", "rewrite.unknown_child_end", "rewrite.unknown_child_spaced", "rewrite.tag_spacing", "exhaustive_site_docs", "types_seen_all"],
     run,
     replay,
     thorough_layers: &[],
@@ -55,9 +55,9 @@ pub fn tokens(xml: &str) -> Option<Vec<Tok>> {
     Some(out)
 }
 
-pub const REWRITES: [&str; 19] = [
+pub const REWRITES: [&str; 20] = [
     "comment_at_boundary", "comment_in_text", "pi", "whitespace", "cdata_whole", "cdata_split", "charref_dec", "charref_hex", "empty_to_pair", "pair_to_empty", "attr_permute",
-    "attr_quote_swap", "attr_spacing", "prolog", "trailing", "unknown_attr", "unknown_child_start", "unknown_child_end", "tag_spacing",
+    "attr_quote_swap", "attr_spacing", "prolog", "trailing", "unknown_attr", "unknown_child_start", "unknown_child_end", "tag_spacing", "unknown_child_spaced",
 ];
 
 /// structs with a `$value` field (an unknown child would be taken for a variant)
@@ -81,6 +81,54 @@ fn parents(t: &[Tok]) -> Vec<Option<String>> {
     }
     out.push(stack.last().cloned());
     out
+}
+
+/// index of the parent's Start token at each boundary 0..=len
+fn parent_idx(t: &[Tok]) -> Vec<Option<usize>> {
+    let mut stack: Vec<usize> = Vec::new();
+    let mut out = Vec::with_capacity(t.len() + 1);
+    for (i, tok) in t.iter().enumerate() {
+        out.push(stack.last().copied());
+        if tok.kind == Kind::End {
+            stack.pop();
+        } else if tok.kind == Kind::Start {
+            stack.push(i);
+        }
+    }
+    out.push(stack.last().copied());
+    out
+}
+
+/// does the element opened by token `s` have character data of its own (a direct Text / CDATA child)?
+fn has_direct_text(t: &[Tok], s: usize) -> bool {
+    let mut depth = 0i32;
+    for tok in &t[s + 1..] {
+        match tok.kind {
+            Kind::Start => depth += 1,
+            Kind::End => {
+                if depth == 0 {
+                    return false;
+                }
+                depth -= 1;
+            }
+            Kind::Text | Kind::CData if depth == 0 => return true,
+            _ => {}
+        }
+    }
+    false
+}
+
+/// Elements named `o_*` are structs with named children and an *optional* `$text`: where such an
+/// element has no character data in this document its content is element-only, and it is treated
+/// like an `s_*` element; where it has text, like an `x_*` element.
+fn element_only(t: &[Tok], start: Option<usize>) -> bool {
+    match start {
+        Some(s) => {
+            let n = &t[s].name;
+            n.starts_with("s_") || n.starts_with("k_") || (n.starts_with("o_") && !has_direct_text(t, s))
+        }
+        None => false,
+    }
 }
 
 /// positions inside a raw text at which it may be split: char boundaries, not inside `&...;`
@@ -168,9 +216,9 @@ pub fn apply(t: &[Tok], kind: &str, site: usize, counter: &mut usize, variant: u
             }
         }
         "whitespace" => {
+            let pidx = parent_idx(t);
             for i in root_start + 1..=root_end {
-                let p = par[i].as_deref().unwrap_or("");
-                if !(p.starts_with("s_") || p.starts_with("k_")) {
+                if !element_only(t, pidx[i]) {
                     continue;
                 }
                 // only between markup tokens (element-only content has no text of its own)
@@ -426,7 +474,7 @@ pub fn apply(t: &[Tok], kind: &str, site: usize, counter: &mut usize, variant: u
         }
         "unknown_attr" => {
             for (i, tok) in t.iter().enumerate() {
-                if matches!(tok.kind, Kind::Start | Kind::Empty) && (tok.name.starts_with("s_") || tok.name.starts_with("x_")) && hit(counter) {
+                if matches!(tok.kind, Kind::Start | Kind::Empty) && (tok.name.starts_with("s_") || tok.name.starts_with("x_") || tok.name.starts_with("o_")) && hit(counter) {
                     let close = if tok.kind == Kind::Empty { 2 } else { 1 };
                     let mut s = tok.bytes[..tok.bytes.len() - close].to_string();
                     // a fresh name each time: a second unknown attribute of the same name would make the tag ill-formed
@@ -439,7 +487,7 @@ pub fn apply(t: &[Tok], kind: &str, site: usize, counter: &mut usize, variant: u
                 }
             }
         }
-        "unknown_child_start" | "unknown_child_end" => {
+        "unknown_child_start" | "unknown_child_end" | "unknown_child_spaced" => {
             let unk = [
                 "<zz_unknown a=\"1\"><zz_c>t</zz_c><zz_d/></zz_unknown>",
                 "<zz_unknown/>",
@@ -449,7 +497,9 @@ pub fn apply(t: &[Tok], kind: &str, site: usize, counter: &mut usize, variant: u
                 "<zz_unknown><zz_other/><zz_unknown kind=\"a\">x</zz_unknown>tail</zz_unknown>",
                 "<zz_unknown ><zz_unknown\n>x</zz_unknown ><zz_unknown/></zz_unknown >",
                 "<zz_unknown xmlns:zz=\"u\"><zz:c zz:a=\"1\"/><zz_unknown a=\"1\"><zz_unknown/></zz_unknown></zz_unknown>",
-            ][(variant % 8) as usize];
+                "<zz_unknown>text first</zz_unknown>",
+                "<zz_unknown>t<zz_c/> </zz_unknown>",
+            ][(variant % 10) as usize];
             // matching Start/End pairs of struct elements
             let mut stack: Vec<usize> = Vec::new();
             for (i, tok) in t.iter().enumerate() {
@@ -458,8 +508,24 @@ pub fn apply(t: &[Tok], kind: &str, site: usize, counter: &mut usize, variant: u
                     Kind::End => {
                         if let Some(s) = stack.pop() {
                             let n = &t[s].name;
-                            if n.starts_with("s_") && !NO_UNKNOWN_CHILD.contains(&n.as_str()) && hit(counter) {
+                            if (n.starts_with("s_") || (n.starts_with("o_") && !has_direct_text(t, s))) && !NO_UNKNOWN_CHILD.contains(&n.as_str()) && hit(counter) {
                                 let mut v = t.to_vec();
+                                if kind == "unknown_child_spaced" {
+                                    // the pretty-printed form: the unknown child on lines of its own, at the start
+                                    // or at the end (two rewrites of the property's list in one step)
+                                    let at = if variant % 2 == 0 { s + 1 } else { i };
+                                    let ws = ["\n  ", " ", "\n\t", "\r\n    "][((variant / 2) % 4) as usize];
+                                    v.insert(at, mk(Kind::Text, ws));
+                                    v.insert(at + 1, mk(Kind::PI, unk));
+                                    v.insert(at + 2, mk(Kind::Text, ws));
+                                    // whitespace next to character data would change it
+                                    let before_is_text = at > 0 && matches!(v[at - 1].kind, Kind::Text | Kind::CData);
+                                    let after_is_text = v.get(at + 3).map_or(false, |x| matches!(x.kind, Kind::Text | Kind::CData));
+                                    if before_is_text || after_is_text {
+                                        continue;
+                                    }
+                                    return Some(v);
+                                }
                                 let at = if kind == "unknown_child_start" { s + 1 } else { i };
                                 v.insert(at, mk(Kind::PI, unk)); // inert blob for later rewrites
                                 return Some(v);
